@@ -57,7 +57,13 @@ var failingActions = []struct{ class, src string }{
 	{"function-error", `if includeIfExists("/inc/execfail.jet") }}{{ end`},
 	{"function-error", `silentv := includeIfExists("/inc/execfail.jet")`},
 	{"function-error", `if exec("/inc/execfail.jet") }}{{ end`},
+	// a value that renders itself in pieces and gives up after a piece that ends inside a character
+	{"renderer-failed", "frend"},
+	{"renderer-failed", "frend2"},
 }
+
+// StrPanicText is what strpanicfn panics with: a string, not an error
+const StrPanicText = "plain string panic from a user function: 100% <sure>, 50%d off, trailing %"
 
 func failFuncs() map[string]jet.Func {
 	return map[string]jet.Func{
@@ -73,7 +79,7 @@ func failFuncs() map[string]jet.Func {
 		},
 		// a user function that panics with something that is not an error value
 		"strpanicfn": func(a jet.Arguments) reflect.Value {
-			panic("plain string panic from a user function")
+			panic(StrPanicText)
 		},
 		// a user function that reports a failure of its own, with the low-level error it ran into attached as the
 		// cause (%w): an error value like any other, not a Go runtime error of the engine
@@ -95,6 +101,17 @@ func failFuncs() map[string]jet.Func {
 				v.SetFloat(v.Float() + 1)
 			} else if v.IsValid() && v.Kind() == reflect.Float64 {
 				a.Runtime().Set(a.Get(0).String(), v.Float()+1)
+			} else if v.IsValid() && v.CanSet() && v.Kind() == reflect.String {
+				v.SetString(v.String() + "!") // the same for text
+			} else if v.IsValid() && v.Kind() == reflect.String {
+				a.Runtime().Set(a.Get(0).String(), v.String()+"!")
+			}
+			return reflect.Value{}
+		},
+		// Go code that writes through the Runtime it is handed (as the reference interpreter's rtWrite does)
+		"rtWrite": func(a jet.Arguments) reflect.Value {
+			for i := 0; i < a.NumOfArguments(); i++ {
+				a.Runtime().Write([]byte(a.Get(i).String()))
 			}
 			return reflect.Value{}
 		},
@@ -124,6 +141,8 @@ func failVars(p *mj.Program) {
 	p.Vars["fxs"] = mj.RInts(1, 2)
 	p.Vars["fnum"] = mj.RInt(5)
 	p.Vars["fnil"] = mj.RNil()
+	p.Vars["frend"] = mj.Recipe{T: "rend-chunks", Ss: []string{"r<\xe6\x97"}, I: 1}
+	p.Vars["frend2"] = mj.Recipe{T: "rend-chunks", Ss: []string{"日本", "語\xf0\x9f\x98", "never"}, I: 2, B: true}
 }
 
 type c13Gen struct {
@@ -225,7 +244,10 @@ func (g *c13Gen) tryStmt(inBlockWithContent bool) []*mj.Node {
 		if g.n(0, 9, "goRuntimeError") == 0 {
 			// a Go runtime error (nil map assignment) in a user function: directly inside a try it is a failure of
 			// the body like any other (only Execute itself hands such panics on)
-			fail = &mj.Node{K: "fail", Src: []string{"rtpanicfn()", "strpanicfn()"}[g.n(0, 1, "panicPayload")], Class: "function-error"}
+			fail = &mj.Node{K: "fail", Src: "rtpanicfn()", Class: "function-error"}
+			if g.n(0, 1, "panicPayload") == 1 {
+				fail = &mj.Node{K: "fail", Src: "strpanicfn()", Class: "string-panic", Text: StrPanicText}
+			}
 			g.labels["failure:go-runtime-error-or-string-panic-in-try"] = true
 		}
 		core = []*mj.Node{mj.Text("reached"), fail, mj.Text("never")}
@@ -281,6 +303,10 @@ func (g *c13Gen) tryStmt(inBlockWithContent bool) []*mj.Node {
 			g.decls = append(g.decls, n.Name)
 		}
 		n.Catch = []*mj.Node{mj.Text("(caught, err set:"), mj.Print(mj.Call("isset", mj.Var(n.Name))), mj.Text(")"), mj.Let(cv, mj.Str("c")), mj.Text("(.="), mj.Print(mj.Dot()), mj.Text(")")}
+		if fails && core[1].Class == "string-panic" && n.Body[0].K != "fail" {
+			// the failure is a value, not an error: the variable holds that value as it is
+			n.Catch = append(n.Catch, mj.Text("(the failure says:"), mj.Print(mj.Var(n.Name)), mj.Text(")"))
+		}
 		if g.marker {
 			// the catch body belongs to the template the try stands in: its blocks, not those of whatever failed
 			n.Catch = append(n.Catch, mj.Text("(catch sees "), &mj.Node{K: "yield", Name: "marker"}, mj.Text(")"))
@@ -452,7 +478,7 @@ func judgeC13(c c13Case) (v core.Verdict) {
 
 func TestC13(t *testing.T) {
 	core.Run(t, "C13",
-		"try statements whose body nests 0-4 of {range rebinding '.', range with := / = loop variables, if with declaration, block with parameters and context, yield with content, yielded block body, include with context, block yielded with a context by a Go helper (Runtime.YieldBlock), inner try (caught / failing in its catch)} around a failing action of any of 30 kinds incl. a Go runtime error in a user function and output produced by calls inside conditions / assignments (or none: success case), also as the only statement of a body without any text, with no catch / catch / catch with variable (whose body may fail too), executed with data or without any (a fifth of the cases), placed at top level, in a block invoked with content, in a range or in an include; probes after the statement print '.', variables, isset of every name declared inside, yield content and more text; catch handlers that yield the content of the block they stand in or read the error variable only through an included template; oracle = MiniJet reference interpreter with transactional try, plus a second execution into a destination that refuses, once, the Write handing over a finished try body (an error, and a prefix of the output); non-trivial = a failure below >=1 construct",
+		"try statements whose body nests 0-4 of {range rebinding '.', range with := / = loop variables, if with declaration, block with parameters and context, yield with content, yielded block body, include with context, block yielded with a context by a Go helper (Runtime.YieldBlock), inner try (caught / failing in its catch)} around a failing action of any of 30 kinds incl. a Go runtime error in a user function and output produced by calls inside conditions / assignments (or none: success case), also as the only statement of a body without any text, with no catch / catch / catch with variable (whose body may fail too), executed with data or without any (a fifth of the cases), placed at top level, in a block invoked with content, in a range or in an include; probes after the statement print '.', variables, isset of every name declared inside, yield content and more text; catch handlers that yield the content of the block they stand in or read the error variable only through an included template; also: values that render themselves in pieces and fail after a piece that ends inside a character; a Go function that panics with a string full of '%' whose catch variable is printed; oracle = MiniJet reference interpreter with transactional try, plus a second execution into a destination that refuses, once, the Write handing over a finished try body (an error, and a prefix of the output); non-trivial = a failure below >=1 construct",
 		genC13, judgeC13)
 }
 
